@@ -9,7 +9,9 @@ dict::
 
     {"name": "www.example.com", "addr": "192.0.2.1" | "<error>",
      "exp": 3600 | None,            # absolute virtual second of expiry, None = NEVER
-     "form": "local" | "expires" | "cached" | "never" | "never-cached",
+     "form": "local" | "expires" | "cached" | "never" | "never-cached" | "positional",
+                                    # "positional" = name addr "local" "utc": the pre-keyword form txtorcon
+                                    # still accepts (4th field = UTC expiry); not in today's control-spec
      "cached": "YES" | "NO", "streamid": 12 | None,
      "tzoff": 7200}                 # optional: Tor's local time runs this many seconds ahead of UTC
                                     # (only meaningful on forms that carry EXPIRES=, which is UTC)
@@ -51,7 +53,9 @@ def render(ev, epoch):
         out.append('"%s"' % iso(epoch, ev["exp"] + ev.get("tzoff", 0)))
         if err:
             out.append("error=yes")
-        if form in ("expires", "cached") or err:
+        if form == "positional" and not err:
+            out.append('"%s"' % t)
+        elif form in ("expires", "cached") or err:
             out.append('EXPIRES="%s"' % t)
         if form == "cached":
             out.append('CACHED="%s"' % ev.get("cached", "NO"))
@@ -187,6 +191,8 @@ def selftest():
     assert render(e3, epoch) == 'example.invalid <error> "2013-04-03 06:01:00" error=yes EXPIRES="2013-04-03 06:01:00" CACHED="NO"'
     e5 = dict(e1, tzoff=7200)
     assert render(e5, epoch) == 'example.com 192.0.43.10 "2013-04-03 11:00:00" EXPIRES="2013-04-03 09:00:00" CACHED="NO"'
+    e6 = dict(e1, form="positional", tzoff=-12600)
+    assert render(e6, epoch) == 'example.com 192.0.43.10 "2013-04-03 05:30:00" "2013-04-03 09:00:00"'
     e4 = {"name": "a.example", "addr": "10.0.0.1", "exp": 62, "form": "local"}
     assert render(e4, epoch) == 'a.example 10.0.0.1 "2013-04-03 06:01:02"'
     n += 4
